@@ -16,7 +16,8 @@ import (
 
 // update: ProcessConfig.Compare field sensitivity and ProjectRunner.UpdateProject on the real runner.
 type updateC struct {
-	sc *scaleC
+	sc   *scaleC
+	prev map[string]int
 }
 
 func init() { Register("update", func() Component { return &updateC{} }) }
@@ -128,8 +129,25 @@ func (c *updateC) dump(status map[string]string) string {
 		names = append(names, n)
 	}
 	sort.Strings(names)
-	return fmt.Sprintf("status=[%s] names=[%s] launches=%d stops=%d", strings.Join(sts, ","), strings.Join(names, ","),
-		len(c.sc.h.cmds), len(c.sc.h.stopLog))
+	// which live instance runs each process: kept from before this operation (k) or launched by it (n)
+	cur := map[string]int{}
+	for i, fc := range c.sc.h.cmds {
+		if fc.alive {
+			cur[fc.name] = i
+		}
+	}
+	inst := []string{}
+	for n, i := range cur {
+		if j, ok := c.prev[n]; ok && j == i {
+			inst = append(inst, n+":k")
+		} else {
+			inst = append(inst, n+":n")
+		}
+	}
+	sort.Strings(inst)
+	c.prev = cur
+	return fmt.Sprintf("status=[%s] names=[%s] launches=%d stops=%d inst=[%s]", strings.Join(sts, ","), strings.Join(names, ","),
+		len(c.sc.h.cmds), len(c.sc.h.stopLog), strings.Join(inst, ","))
 }
 
 func (c *updateC) Exec(op string) string {
@@ -146,6 +164,7 @@ func (c *updateC) Exec(op string) string {
 		case len(w) == 2 && w[0] == "upinit":
 			c.sc = &scaleC{h: &supH{}}
 			c.sc.h.reset("coarse", false)
+			c.prev = map[string]int{}
 			prj := buildProject(parseSpec(w[1]))
 			r, err := app.NewProjectRunner((&app.ProjectOpts{}).WithProject(prj).WithIsTuiOn(true))
 			if err != nil {
